@@ -28,9 +28,10 @@ type vp9HdrJ struct {
 }
 
 type vp9FrameJ struct {
-	Hdr  vp9HdrJ `json:"hdr"`
-	Body int     `json:"body"`
-	Salt int     `json:"salt"`
+	Hdr   vp9HdrJ `json:"hdr"`
+	Body  int     `json:"body"`
+	Salt  int     `json:"salt"`
+	FillV *int    `json:"fillv"`
 }
 
 type c12Case struct {
@@ -146,7 +147,8 @@ func runC12(raw json.RawMessage, w *Writer) {
 		id := uint16(c.StartID)
 		p := &codecs.VP9Payloader{FlexibleMode: c.Flexible, InitialPictureIDFn: func() uint16 { return id }}
 		for k, fr := range c.Frames {
-			frame := append(vp9HeaderBytes(fr.Hdr), pat(fr.Body, fr.Salt)...)
+			body, _ := frameBytes(frameJ{Len: fr.Body, Salt: fr.Salt, FillV: fr.FillV})
+			frame := append(vp9HeaderBytes(fr.Hdr), body...)
 			var frags [][]byte
 			r, _ := guard(func() { frags = p.Payload(uint16(c.Mtu), cloneBytes(frame)) })
 			decs := []Ev{}
